@@ -309,6 +309,17 @@ func (w *provWalker) walkCallResult(tuple ssa.Value, idx int, depth int, v ssa.V
 		w.add("opaque", fmt.Sprintf("extract of %T", tuple), v)
 		return
 	}
+	if b, ok := call.Common().Value.(*ssa.Builtin); ok {
+		switch b.Name() {
+		case "append", "min", "max":
+			for _, a := range call.Common().Args {
+				w.walk(a, depth)
+			}
+		default:
+			w.add("call", "builtin:"+b.Name(), v)
+		}
+		return
+	}
 	k := CalleeKey(call.Common())
 	if k == "" {
 		// dynamic call through a function value
